@@ -6,10 +6,12 @@
    are not handed to the decoder), for ANY codec object; and the round trip / truncation statements for
    every codec that satisfies the three named laws H1-H3, which are hypotheses (premises below), not
    facts about zlib/zstandard: those libraries are tied to H1-H3 by differential testing only.
-   The toy codec instance shows the premises are satisfiable (H1-H3 proved for it).
+   The toy codec instance shows the premises are satisfiable (H1-H3 proved for it); for gzip the laws are proved for a
+   codec built from an executable model of gzip decompression that is compared with the real zlib on every run (below).
    Only statements here; proofs are `exact <lemma>`. *)
-From Coq Require Import List Arith Bool NArith.
-From RxVerif Require Import Compress.Wrapper Compress.WrapperProofs.
+From Coq Require Import List Arith Bool NArith ZArith.
+From RxVerif Require Import Compress.Inflate Compress.InflateProofs.
+From RxVerif Require Import Compress.Wrapper Compress.WrapperProofs Compress.InflateCodec.
 Import ListNotations.
 
 (* wrapper logic, any codec: every output of compressor.compress is forwarded while its chunk is
@@ -113,6 +115,73 @@ Theorem C16_unrepaired_zstd_wrapper_refuted : exists chunks rechunk : list (list
   In Error (concat (toy_decompress false true rechunk)).
 Proof. exact toy_unrepaired_refuted. Qed.
 Print Assumptions C16_unrepaired_zstd_wrapper_refuted.
+
+(* ---------------------------------------------------------------------------------------------
+   gzip MODELLED: Compress/Inflate.v is an executable model of gzip decompression - RFC 1952 container (all optional
+   header fields, CRC-32 and ISIZE checked) around a full RFC 1951 inflate (stored, fixed-Huffman and dynamic-Huffman
+   blocks, LZ77 copies) - with the three-valued answer Done data rest / NeedMore / Bad, and an encoder gzip_stored
+   (stored blocks only).  The correspondence check runs the model on the streams the REAL z.compress wrapper emits
+   (zlib level 6: fixed and dynamic Huffman blocks), on their strict prefixes and on bit-flipped / cut / extended
+   variants with zlib's own verdict (C16Corr.CGunzip), every run.
+   Proved of the model: a complete stream stays complete when bytes are appended and no strict prefix of a complete
+   stream is complete - it is NeedMore, never Bad (truncation is never mistaken for completion: law H3, for EVERY
+   stream the model accepts, Huffman blocks included); Done implies the CRC-32 / ISIZE trailer matches; the stored
+   encoder round-trips every byte list; and the laws H1-H3 hold for the codec built from the model, so that the
+   round-trip and truncation theorems above hold for it without premises.
+   Not proved: that inflate's OUTPUT on Huffman blocks is what RFC 1951 / zlib's compressor mean (tied by the
+   comparison with zlib only); zlib's compressor; zstandard (not modelled at all).
+   --------------------------------------------------------------------------------------------- *)
+Theorem C16_gunzip_complete_stream_stays_complete : forall p d r,
+  gunzip p = Done d r -> forall x, gunzip (p ++ x) = Done d (r ++ x).
+Proof. exact gunzip_extend_done. Qed.
+Print Assumptions C16_gunzip_complete_stream_stays_complete.
+Theorem C16_gunzip_truncated_is_needmore : forall p x d,
+  gunzip (p ++ x) = Done d [] -> x <> [] -> gunzip p = NeedMore.
+Proof. exact gunzip_truncated_needmore. Qed.
+Print Assumptions C16_gunzip_truncated_is_needmore.
+Theorem C16_gunzip_no_strict_prefix_is_complete : forall p x d,
+  gunzip (p ++ x) = Done d [] -> x <> [] -> forall d' r', gunzip p <> Done d' r'.
+Proof. exact gunzip_no_early_done. Qed.
+Print Assumptions C16_gunzip_no_strict_prefix_is_complete.
+Theorem C16_gunzip_invalid_stays_invalid : forall p, gunzip p = Bad -> forall x, gunzip (p ++ x) = Bad.
+Proof. exact gunzip_extend_bad. Qed.
+Print Assumptions C16_gunzip_invalid_stays_invalid.
+Theorem C16_gunzip_total : forall s, gunzip s <> OutOfFuel.
+Proof. exact gunzip_never_out_of_fuel. Qed.
+Print Assumptions C16_gunzip_total.
+Theorem C16_gunzip_done_checks_trailer : forall s d r, gunzip s = Done d r ->
+  exists s1 out s2 crc s3 isize c4,
+    gz_header ([], s) = Ok tt s1 /\ inflate_rev s1 = Ok out s2 /\ d = rev out /\
+    get32 ([], snd s2) = Ok crc s3 /\ get32 s3 = Ok isize (c4, r) /\
+    crc = crc32 d /\ isize = (Z.of_nat (length d) mod 4294967296)%Z.
+Proof. exact gunzip_done_trailer. Qed.
+Print Assumptions C16_gunzip_done_checks_trailer.
+Theorem C16_gzip_stored_roundtrip : forall d, gunzip (gzip_stored d) = Done d [].
+Proof. exact gunzip_stored_roundtrip_any. Qed.
+Print Assumptions C16_gzip_stored_roundtrip.
+(* the round-trip and truncation statements for the gzip codec of the model: no premises left *)
+Theorem C16_gzip_model_roundtrip_any_rechunking : forall (skip : bool) (chunks rechunk : list (list Z)),
+  concat rechunk = payload (concat (gz_compress chunks)) ->
+  In Completed (concat (gz_compress chunks)) /\
+  payload (concat (gz_decompress skip rechunk)) = concat chunks /\
+  In Completed (concat (gz_decompress skip rechunk)) /\
+  ~ In Error (concat (gz_decompress skip rechunk)).
+Proof. exact gz_roundtrip_any_rechunking. Qed.
+Print Assumptions C16_gzip_model_roundtrip_any_rechunking.
+Theorem C16_gzip_model_truncation_is_error : forall (skip : bool) (chunks rechunk : list (list Z)) (suf : list Z),
+  suf <> [] ->
+  concat rechunk ++ suf = payload (concat (gz_compress chunks)) ->
+  In Error (concat (gz_decompress skip rechunk)) /\
+  ~ In Completed (concat (gz_decompress skip rechunk)).
+Proof. exact gz_truncation_is_error. Qed.
+Print Assumptions C16_gzip_model_truncation_is_error.
+Theorem C16_gzip_model_stream_is_a_valid_file : forall chunks,
+  gunzip (payload (concat (gz_compress chunks))) = Done (concat chunks) [].
+Proof. exact gz_compress_payload_valid. Qed.
+Print Assumptions C16_gzip_model_stream_is_a_valid_file.
+Example C16_gunzip_example :
+  gunzip (gzip_stored [104; 105]%Z) = Done [104; 105]%Z [] /\ gunzip (firstn 20 (gzip_stored [104; 105]%Z)) = NeedMore.
+Proof. vm_compute. split; reflexivity. Qed.
 
 (* non-vacuity *)
 Example C16_toy_compress_example :
